@@ -5,7 +5,7 @@
 (* system calls of a save.                                                 *)
 (*                                                                         *)
 (* Trace (harness/src/bin/drv_crash.rs, one JSON object per line):         *)
-(*  {"op":"new","case":id,"routine":r,"ops":[..],                          *)
+(*  {"op":"new","case":id,"routine":r,"ops":[..],"post":[{"name","len"}..], *)
 (*   "old":{"ok":b,"proj":{object: canonical string},..},   recovery of the*)
 (*   "new":{"ok":b,"proj":{..}}, ..}       directory before / after the save*)
 (*  {"op":"recover","seq":n,"pos":p,"mode":"c06"|"dirops_prefix",          *)
@@ -32,7 +32,10 @@ EXTENDS Naturals, Sequences, FiniteSets, TLC, Json, IOUtils
 CONSTANT KnownDeviations
 Rec == ndJsonDeserialize(IOEnv.TRACE)
 
-VARIABLES l, hdr, seq, viol, devs,
+VARIABLES l, hdr, seq, viol,
+          nDevA, nDevB,           \* scenarios explained by Dev_F06a / Dev_F06b only (counters: a list would make
+                                  \* every state as large as the number of deviations seen so far)
+          firstDev,               \* line of the first scenario explained by each deviation (witness)
           nOld, nNew, nSame,      \* how the conforming recoveries came out (evidence of non-vacuity)
           nStrictBad              \* non-conforming scenarios of the informational crash model
 
@@ -52,11 +55,18 @@ Conforms(e) == /\ e.res.ok /\ ~Has(e.res, "panic")
 (* Dev_F06a: LruManager::checkpoint_to_disk writes the new generation in   *)
 (* place without fsync, recovery (run_cycle) looks at the highest          *)
 (* generation only and fails on a file that is not complete.  Guard: the   *)
-(* highest-generation *.lru file of the directory is one the save was      *)
-(* still writing (un-synced content cut short or zero-filled, or created   *)
-(* and still empty) and run_cycle returned an error.                       *)
+(* highest-generation *.lru file of the directory is IN FLIGHT - created   *)
+(* or modified by the interrupted checkpoint and not fsync'ed - and is     *)
+(* neither the complete old file (outcome "stale" of an existing file) nor *)
+(* the complete new one (everything arrived and the length is the final    *)
+(* one), and run_cycle returned an error.                                  *)
 (***************************************************************************)
-Torn(f) == f.cls \in {"prefix", "zeros"} \/ (f.born /\ f.len = 0)
+PostLen(name) == LET S == {i \in 1..Len(hdr.post) : hdr.post[i].name = name}
+                 IN IF S = {} THEN 0 ELSE hdr.post[CHOOSE i \in S : TRUE].len
+InFlight(f) == f.born \/ f.cls # "durable"
+CompleteOld(f) == f.cls = "stale" /\ f.dlen > 0
+CompleteNew(f) == f.cls \in {"full", "durable"} /\ f.len > 0 /\ f.len = PostLen(f.name)
+Torn(f) == InFlight(f) /\ ~CompleteOld(f) /\ ~CompleteNew(f)
 LruIdx(e) == {i \in 1..Len(e.disk) : e.disk[i].gen >= 0}
 TopLru(e) == CHOOSE i \in LruIdx(e) : \A k \in LruIdx(e) : e.disk[k].gen <= e.disk[i].gen
 DevF06a(e) ==
@@ -81,7 +91,8 @@ DevF06b(e) ==
         /\ f.name = "extract_bu" /\ f.cls = "zeros" /\ f.dlen >= 5 /\ f.vlen > f.dlen
         /\ e.res.segs = hdr.old.segs \o ZeroSeq((f.vlen - f.dlen) \div 4)
 
-TInit == /\ l = 1 /\ hdr = [routine |-> ""] /\ seq = 0 /\ viol = <<>> /\ devs = <<>>
+TInit == /\ l = 1 /\ hdr = [routine |-> ""] /\ seq = 0 /\ viol = <<>> /\ nDevA = 0 /\ nDevB = 0
+         /\ firstDev = [a |-> 0, b |-> 0]
          /\ nOld = 0 /\ nNew = 0 /\ nSame = 0 /\ nStrictBad = 0
 
 Step ==
@@ -89,10 +100,10 @@ Step ==
   /\ LET e == Rec[l] IN
      IF e.op = "new" THEN
         /\ hdr' = e /\ seq' = 0
-        /\ UNCHANGED <<viol, devs, nOld, nNew, nSame, nStrictBad>>
+        /\ UNCHANGED <<viol, nDevA, nDevB, firstDev, nOld, nNew, nSame, nStrictBad>>
      ELSE IF e.op = "hang" THEN     \* the recovery never returned (driver watchdog)
         /\ viol' = Append(viol, l)
-        /\ UNCHANGED <<hdr, seq, devs, nOld, nNew, nSame, nStrictBad>>
+        /\ UNCHANGED <<hdr, seq, nDevA, nDevB, firstDev, nOld, nNew, nSame, nStrictBad>>
      ELSE
         LET ok    == Conforms(e)
             seqok == e.seq = seq + 1
@@ -102,7 +113,10 @@ Step ==
             good  == (ok \/ dA \/ dB) /\ seqok
         IN /\ hdr' = hdr /\ seq' = e.seq
            /\ viol' = IF good \/ (soft /\ seqok) THEN viol ELSE Append(viol, l)
-           /\ devs' = IF ~soft /\ good /\ ~ok THEN Append(devs, <<l, IF dA THEN "F06a" ELSE "F06b">>) ELSE devs
+           /\ nDevA' = IF ~soft /\ seqok /\ dA THEN nDevA + 1 ELSE nDevA
+           /\ nDevB' = IF ~soft /\ seqok /\ ~dA /\ dB THEN nDevB + 1 ELSE nDevB
+           /\ firstDev' = [a |-> IF firstDev.a = 0 /\ ~soft /\ seqok /\ dA THEN l ELSE firstDev.a,
+                           b |-> IF firstDev.b = 0 /\ ~soft /\ seqok /\ ~dA /\ dB THEN l ELSE firstDev.b]
            /\ nStrictBad' = IF soft /\ ~ok THEN nStrictBad + 1 ELSE nStrictBad
            /\ nSame' = IF ok /\ IsOld(e) /\ IsNew(e) THEN nSame + 1 ELSE nSame
            /\ nOld' = IF ok /\ IsOld(e) /\ ~IsNew(e) THEN nOld + 1 ELSE nOld
@@ -111,7 +125,8 @@ Step ==
 
 TNext == Step
 Done == (l = Len(Rec) + 1) =>
-  PrintT(<<"VERDICT", ToJson([events |-> Len(Rec), violations |-> viol, deviations |-> devs,
+  PrintT(<<"VERDICT", ToJson([events |-> Len(Rec), violations |-> viol, deviations |-> <<>>,
+                              dev_F06a |-> nDevA, dev_F06b |-> nDevB, first |-> firstDev,
                               rec_old |-> nOld, rec_new |-> nNew, rec_same |-> nSame,
                               strict_nonconforming |-> nStrictBad])>>)
 =============================================================================
